@@ -330,3 +330,42 @@ def try_err_edges(fn, terms, call_pred):
 
 def callers_of(prog, path):
     return M.all_calls(prog, lambda f: M.callee_str(f) == path)
+
+
+# ----------------------------------------------------------------------------
+# effect summaries under a finite-domain assumption
+# ----------------------------------------------------------------------------
+
+
+def effects(fn, assume=None, tracked=(), tries="ok"):
+    """explore fn under `assume` and return (explore, terms, stores) where stores is the list of
+    (slot, value term, bb) for every store whose destination goes through a reference
+    parameter or into a field of `self`; terms are evaluated over the explored blocks only"""
+    ex = M.Explore(fn, assume=assume or {}, tracked=tracked, tries=tries)
+    T = M.Terms(fn, blocks=ex.blocks)
+    stores = []
+    for bb in sorted(ex.blocks):
+        for si, s in enumerate(fn.blocks[bb]["stmts"]):
+            if s["k"] != "assign" or not s["p"]["proj"]:
+                continue
+            if s["p"]["proj"][0]["k"] != "deref":
+                continue
+            slot = T.place_slot(s["p"])
+            if slot is None:
+                continue
+            stores.append((slot, T.rvalue(s["r"]), bb))
+    return ex, T, stores
+
+
+def result_variants(fn, ex):
+    """variants assigned to the return place in the explored blocks: list of (bb, si, variant, rvalue)"""
+    out = []
+    for bb in sorted(ex.blocks):
+        for si, s in enumerate(fn.blocks[bb]["stmts"]):
+            if s["k"] == "assign" and s["p"]["l"] == 0 and not s["p"]["proj"] and s["r"]["k"] == "agg" and s["r"]["kind"] == "adt":
+                out.append((bb, si, s["r"]["variant"], s["r"]))
+        t = fn.blocks[bb]["term"]
+        if t["k"] == "call" and t["dest"]["l"] == 0 and not t["dest"]["proj"]:
+            nm = M.callee_str(t["f"])
+            out.append((bb, "term", "from_residual" if "FromResidual" in nm else "call:" + nm, t))
+    return out
